@@ -62,7 +62,12 @@ impl ConstraintVal {
                     false
                 }
             }
-            ConstraintValArm::Exact(expected) => val.equal(expected).unwrap_or(false),
+            // An arm that names another constraint admits what that
+            // constraint admits.
+            ConstraintValArm::Exact(expected) => match expected.as_ref() {
+                Val::Constraint(inner) => inner.check(val),
+                _ => val.equal(expected).unwrap_or(false),
+            },
         })
     }
 }
